@@ -90,9 +90,13 @@ var propRe = regexp.MustCompile(`^C[0-9]{2,3}$`)
 
 func splitLabel(rest string) (label, expr string) {
 	// LABEL: EXPR where LABEL has no spaces
-	i := strings.Index(rest, ":")
+	i := strings.Index(rest, ": ")
 	if i < 0 {
-		return "", strings.TrimSpace(rest)
+		if strings.HasSuffix(rest, ":") {
+			i = len(rest) - 1
+		} else {
+			return "", strings.TrimSpace(rest)
+		}
 	}
 	l := strings.TrimSpace(rest[:i])
 	if strings.ContainsAny(l, " \t(") {
